@@ -431,7 +431,7 @@ func derivesOnlyFrom(v ssa.Value, ok func(*ssa.Function) bool, depth int) (bool,
 	}
 	n := 0
 	for _, p := range ps {
-		cal := p.call.Call.StaticCallee()
+		cal := staticCallee(p.call)
 		if cal != nil && ok(cal) {
 			n++
 			continue
